@@ -475,11 +475,13 @@ impl Check for C11 {
                 if Tri::from_bool(g_strict) != e_strict {
                     // the per-member defect model only applies where the program has an intersection the compiler does
                     // not merge (a named / interface member, an index signature, or the same key declared differently)
-                    let unmerged = case.used.contains_key("inter_unmerged_or_named");
+                    // (an `interface J extends I` whose base was still being resolved stays the intersection `I & {..}`)
+                    let ext_env = crate::render::extends_as_intersections(&case.env, &case.used);
+                    let unmerged = case.used.contains_key("inter_unmerged_or_named") || ext_env.is_some();
                     // types spelled with Exclude are re-materialised from the semantic engine and inherit its listed
                     // findings (here typically `{}` absorbing the other object members of a union)
                     let plain: Vec<String> = if case.used.contains_key("exclude") { crate::csem::engine_family_sigs("c11_strict_membership", &case.env, d, Some(v)) } else { vec!["c11_strict_membership".to_string()] };
-                    let sigs: Vec<String> = match crate::c01::explain_with(&case.env, d, v, Mode::Strict, g_strict, case.used.contains_key("exclude")) {
+                    let sigs: Vec<String> = match crate::c01::explain_with(ext_env.as_ref().unwrap_or(&case.env), d, v, Mode::Strict, g_strict, case.used.contains_key("exclude")) {
                         Some("strict_inter_per_member") if !unmerged => plain,
                         Some(q) => vec![q.to_string()],
                         None => plain,
